@@ -108,11 +108,15 @@ def make_tf(cfg):
 
 def ds_leaf_state(state, name):
   st = state.stats[name]
-  errs = []
+  errs, mev = [], []
   if st.statistics:
     errs = [float(v) for v in np.asarray(st.training_metrics.inverse_pth_root_errors, np.float64).ravel()]
+    mv = getattr(st.training_metrics, "max_eigen_value", None)
+    if mv is not None and np.asarray(mv).size == len(st.statistics):
+      mev = [float(v) for v in np.asarray(mv, np.float64).ravel()]
   return dict(stats=[mat(x) for x in st.statistics], pre=[mat(x) for x in st.preconditioners],
-              err=[e if np.isfinite(e) else -1.0 for e in errs])
+              err=[e if np.isfinite(e) else -1.0 for e in errs],
+              maxev=[v if np.isfinite(v) else -1.0 for v in mev])
 
 
 def tf_leaf_state(state, name):
